@@ -34,7 +34,6 @@ type spec struct {
 	Edits    []edit `json:"edits"`
 }
 
-
 func main() {
 	id, out := os.Args[1], os.Args[2]
 	repo := "/repo"
@@ -104,7 +103,11 @@ func main() {
 				}
 				rel, _ := filepath.Rel(repo, path)
 				m := &mut{id: id, src: string(src), fset: fset, rel: rel, fn: f, out: out, n: &n, fd: fd}
-				m.block(fd.Body, false)
+				if os.Getenv("AUTOMUT_OPS") == "expr" {
+					m.exprs(fd.Body)
+				} else {
+					m.block(fd.Body, false)
+				}
 			}
 		}
 	}
@@ -113,9 +116,9 @@ func main() {
 
 type mut struct {
 	id, src, rel, fn, out string
-	fset                 *token.FileSet
-	n                    *int
-	fd                   *ast.FuncDecl
+	fset                  *token.FileSet
+	n                     *int
+	fd                    *ast.FuncDecl
 }
 
 func (m *mut) off(p token.Pos) int { return m.fset.Position(p).Offset }
@@ -203,6 +206,44 @@ func (m *mut) successReturn() string {
 		}
 	}
 	return "return " + strings.Join(parts, ", ")
+}
+
+// exprs generates expression-level mutants inside one function body: relational boundary (< <=, > >=, and the
+// math.Int / Dec / time method pairs), + / - (Add / Sub), and swaps of two adjacent call arguments.
+func (m *mut) exprs(body *ast.BlockStmt) {
+	relTok := map[token.Token]string{token.LSS: "<=", token.LEQ: "<", token.GTR: ">=", token.GEQ: ">", token.ADD: "-", token.SUB: "+"}
+	relSel := map[string]string{"GT": "GTE", "GTE": "GT", "LT": "LTE", "LTE": "LT", "Add": "Sub", "Sub": "Add", "After": "Before", "Before": "After", "IsPositive": "IsNegative", "Mul": "Quo", "Quo": "Mul"}
+	ast.Inspect(body, func(n ast.Node) bool {
+		switch x := n.(type) {
+		case *ast.FuncLit:
+			return true
+		case *ast.BinaryExpr:
+			if r, ok := relTok[x.Op]; ok {
+				if bl, isLit := x.X.(*ast.BasicLit); isLit && bl.Kind == token.STRING {
+					return true
+				}
+				line := m.fset.Position(x.OpPos).Line
+				m.emit("OP-"+x.Op.String()+"to"+r, m.off(x.OpPos), m.off(x.OpPos)+len(x.Op.String()), r, line)
+			}
+		case *ast.CallExpr:
+			if sel, ok := x.Fun.(*ast.SelectorExpr); ok {
+				if r, ok := relSel[sel.Sel.Name]; ok {
+					line := m.fset.Position(sel.Sel.Pos()).Line
+					m.emit("SEL-"+sel.Sel.Name+"to"+r, m.off(sel.Sel.Pos()), m.off(sel.Sel.End()), r, line)
+				}
+			}
+			for i := 0; i+1 < len(x.Args); i++ {
+				a, b := x.Args[i], x.Args[i+1]
+				as, bs := m.src[m.off(a.Pos()):m.off(a.End())], m.src[m.off(b.Pos()):m.off(b.End())]
+				if as == bs || as == "ctx" || as == "goCtx" {
+					continue
+				}
+				line := m.fset.Position(a.Pos()).Line
+				m.emit(fmt.Sprintf("ARG-SWAP%d", i), m.off(a.Pos()), m.off(b.End()), bs+m.src[m.off(a.End()):m.off(b.Pos())]+as, line)
+			}
+		}
+		return true
+	})
 }
 
 func (m *mut) block(b *ast.BlockStmt, inLoop bool) {
